@@ -79,6 +79,7 @@ pub struct Compiler
 	analyzer: analyzer::Analyzer,
 	linter: linter::Linter,
 	generator: generator::Generator,
+	is_for_wasm: bool,
 	/// The functions that the modules so far define for other modules.
 	exported_functions: std::collections::HashMap<String, common::Location>,
 }
@@ -89,6 +90,8 @@ impl Compiler
 	/// Change the target triple from the current OS to WebAssembly.
 	pub fn for_wasm(&mut self) -> Result<(), anyhow::Error>
 	{
+		self.is_for_wasm = true;
+		self.linter.for_wasm();
 		self.generator.for_wasm()
 	}
 
@@ -100,6 +103,10 @@ impl Compiler
 		self.typer = typer::Typer::default();
 		self.analyzer = analyzer::Analyzer::default();
 		self.linter = linter::Linter::default();
+		if self.is_for_wasm
+		{
+			self.linter.for_wasm();
+		}
 		self.generator.add_module(module_name)
 	}
 
